@@ -3,6 +3,8 @@ package db19
 //symgo:needs core
 
 import (
+	"sync"
+
 	"github.com/apmckinlay/gsuneido/core"
 	rt "github.com/apmckinlay/gsuneido/zzverifrt"
 )
@@ -97,10 +99,23 @@ func vtsTickStep(t core.SuDate) {
 	tsLock.Unlock()
 }
 
+// vtsVariant: how a script starts. kind 0: both clients with an expired (= empty) batch.
+// kind 1: client A in the middle of a 5-millisecond batch (it fetched a timestamp with ms < 500
+// and has used count further values); kind 2: A in the middle of a 256-value batch (fetched
+// with ms >= 500, has used count extra-byte values).
+type vtsVariant struct{ kind, count, nev, day int }
+
+var vtsQuick = []vtsVariant{{0, 0, 4, 0}, {1, 3, 3, 0}, {2, 254, 3, 0}}
+var vtsThorough = []vtsVariant{{0, 0, 6, 0}, {0, 0, 3, 1}, {0, 0, 3, 2}, {0, 0, 3, 3},
+	{1, 3, 4, 0}, {1, 4, 4, 0}, {2, 1, 4, 0}, {2, 254, 4, 0}, {2, 255, 4, 0}}
+
 // C34: a server and two client processes A and B (each with its own copy of the client-side
 // batching state of core/thread.go; the harness swaps the globals in and out) plus callers that
 // ask the server directly. The server's timestamp starts at an arbitrary time of day with
-// arbitrary milliseconds on one of the listed days. A script of events, each one of
+// arbitrary milliseconds on one of the listed days; the clients start with an empty batch, or
+// (vtsVariant) client A starts in the middle of a batch: then its last value L is arbitrary and
+// the server is where the protocol leaves it at least - past the 5 milliseconds it gave away
+// with L's batch, resp. past L. A script of events, each one of
 //
 //	0 the server's ticker reads the clock: an arbitrary time (any second of the same or the
 //	  next day - not even assumed to be later than the previous reading)
@@ -108,36 +123,61 @@ func vtsTickStep(t core.SuDate) {
 //	2 client A asks for a timestamp (Thread.Timestamp)     3 client B asks
 //	4 client A's expiry tick (tsExpire's step)             5 client B's expiry tick
 //
-// Oracle: all values handed out (to anybody) are pairwise different as timestamps including
-// the extra byte; the values each caller receives (direct callers taken as one caller, A, B)
-// strictly increase - by the harness's own lexicographic order on (date, time, extra) and
-// by the values' own Compare; a value with an extra byte never has extra = 0.
+// Oracle: all values handed out (to anybody, including A's last value before the script) are
+// pairwise different as timestamps including the extra byte; the values each caller receives
+// (direct callers taken as one caller, A, B) strictly increase - by the harness's own
+// lexicographic order on (date, time, extra) and by the values' own Compare; a value with an
+// extra byte never has extra = 0.
 //
-//symgo:harness prop=C34 tier=quick shards=8 timeout=400 ttimeout=1700 preempt=0 summary=(github.com/apmckinlay/gsuneido/core.SuDate).Plus=vsumPlus bounds=scripts_of_4_(thorough_6)_events_from_{clock_tick_with_an_arbitrary_time,direct_request,client_A_request,client_B_request,expiry_of_A,expiry_of_B};server_timestamp_starts_at_any_time_of_day_and_millisecond_on_2025-06-15_(thorough:_also_Feb_28_leap/non-leap,_Dec_31);clients_start_with_an_expired_(=empty)_batch outside=SuDate.Plus_(reached_only_for_the_+1_ms_roll-over_at_ms_999)_is_replaced_by_its_contract_in_the_engine_(property_C33;_the_real_one_is_compared_in_the_native_conformance_replays);the_ticker_and_tsExpire_goroutines_themselves_(their_loop_bodies_are_run_as_events;_the_real_ticker_runs_in_VerifC34Ticker);the_client-server_wire_transfer;server_restart_within_the_same_second_(990_ms_head_start);more_than_2_clients;more_than_255+1_requests_per_batch
+//symgo:harness prop=C34 tier=quick shards=8 tshards=16 timeout=400 ttimeout=1700 preempt=0 summary=(github.com/apmckinlay/gsuneido/core.SuDate).Plus=vsumPlus bounds=scripts_of_4_(thorough_6)_events_from_{clock_tick_with_an_arbitrary_time,direct_request,client_A_request,client_B_request,expiry_of_A,expiry_of_B}_from_empty_client_batches;scripts_of_3_(4)_events_with_client_A_at_count_3_of_a_5-ms_batch_or_at_count_254_of_a_256-value_batch_(thorough:_counts_3,4_and_1,254,255);server_timestamp_starts_at_any_time_of_day_and_millisecond_on_2025-06-15_(thorough:_3-event_scripts_also_from_Feb_28_leap/non-leap,_Dec_31);quick_skips_scripts_that_end_without_a_request,_mirror_images_A<->B,_no-op_expiries outside=SuDate.Plus_(reached_only_for_the_+1_ms_roll-over_at_ms_999)_is_replaced_by_its_contract_in_the_engine_(property_C33;_the_real_one_is_compared_in_the_native_conformance_replays);the_ticker_and_tsExpire_goroutines_themselves_(their_loop_bodies_are_run_as_events;_the_real_ticker_runs_in_VerifC34Ticker);the_client-server_wire_transfer;server_restart_within_the_same_second_(990_ms_head_start);more_than_2_clients
 func VerifC34Ts() {
-	nev := 4
-	ndays := 1
+	vars := vtsQuick
 	if rt.Thorough() {
-		nev = 6
-		ndays = len(vtsDays)
+		vars = vtsThorough
 	}
-	days := vtsDays[rt.Pick("day", ndays)]
+	va := vars[rt.Pick("variant", len(vars))]
+	nev := va.nev
+	days := vtsDays[va.day]
 	ms := uint32(rt.Choice("ms0", 1000))
-	timestamp = core.TsVerifMkDate(days[0], vtsTime("t0")|ms)
+	stime := vtsTime("t0") | ms
+	timestamp = core.TsVerifMkDate(days[0], stime)
 
-	core.GetDbms = func() core.IDbms { return vtsDbms{} }
-	th := &core.Thread{}
 	// a client whose batch is used up / expired: its next request goes to the server, exactly
 	// as for a fresh process (tsCount = tsLimit = 0) except that the latter also starts the
 	// tsExpire goroutine
 	expired := core.TsVerifState{Count: core.TsInitialBatch + 1, Limit: core.TsInitialBatch}
 	clients := []core.TsVerifState{expired, expired}
+	var all []vts
+	var caller []int         // 0 direct, 1 A, 2 B
+	var asked, fresh [2]bool // client has asked at all / since its last expiry
+	if va.kind != 0 {
+		lms := uint32(rt.Choice("last_ms", 1000))
+		ltime := vtsTime("last") | lms
+		last := core.TsVerifMkDate(days[0], ltime)
+		var lastVal core.PackableValue = last
+		if va.kind == 1 {
+			// L = B + count where B (ms < 500) was fetched; the server moved on to B+5 at least
+			rt.Assume(rt.And(lms >= uint32(va.count), lms-uint32(va.count) < core.TsThreshold))
+			rt.Assume(stime >= ltime+uint32(core.TsInitialBatch-va.count))
+			clients[0] = core.TsVerifState{Count: va.count, Limit: core.TsInitialBatch, Last: last}
+		} else {
+			// L (ms >= 500) was fetched, count extra-byte values used; the server moved on past L
+			rt.Assume(lms >= core.TsThreshold)
+			rt.Assume(stime > ltime)
+			clients[0] = core.TsVerifState{Count: va.count, Limit: 256, Last: last}
+			if va.count > 0 {
+				lastVal = core.TsVerifMkTimestamp(last, uint8(va.count))
+			}
+		}
+		all = append(all, vtsOf(lastVal))
+		caller = append(caller, 1)
+		asked[0], fresh[0] = true, true
+	}
+
+	core.GetDbms = func() core.IDbms { return vtsDbms{} }
+	th := &core.Thread{}
 	saved := core.TsVerifGet()
 	defer core.TsVerifSet(saved)
-
-	var all []vts
-	var caller []int // 0 direct, 1 A, 2 B
-	var asked, fresh [2]bool // client has asked at all / since its last expiry
 	for i := 0; i < nev; i++ {
 		nm := vname34("e", i)
 		ev := rt.Pick(nm, 6)
@@ -205,3 +245,98 @@ func VerifC34Ts() {
 }
 
 func vname34(p string, i int) string { return p + string(rune('0'+i)) }
+
+// ---------------------------------------------------------------- the real ticker goroutine
+
+// The clock of VerifC34Ticker: core.Now is replaced (summary=) by vsumNow, which hands the
+// ticker goroutine the next clock reading granted by the harness and parks it until then. So the
+// real ticker() runs unchanged: its first Now() (prev), then per granted reading one iteration
+// Sleep - Now - time-skip check - locked update of timestamp. (time.Sleep is a scheduling point.)
+var (
+	vtkMu    sync.Mutex
+	vtkCond  sync.Cond // L = &vtkMu
+	vtkGrant int       // readings granted and not yet taken
+	vtkAsked int       // calls of Now entered
+	vtkTaken int       // calls of Now returned
+	vtkClock core.SuDate
+)
+
+func vsumNow() core.SuDate {
+	vtkMu.Lock()
+	vtkAsked++
+	vtkCond.Broadcast()
+	for vtkGrant == 0 {
+		vtkCond.Wait()
+	}
+	vtkGrant--
+	vtkTaken++
+	t := vtkClock
+	vtkMu.Unlock()
+	return t
+}
+
+// vtkTick: the clock reads t; returns when the ticker has taken that reading, finished what it
+// does with it, and has come back asking for the next one.
+func vtkTick(t core.SuDate) {
+	vtkMu.Lock()
+	vtkClock = t
+	vtkGrant++
+	k := vtkTaken + 1
+	vtkCond.Broadcast()
+	for vtkTaken < k || vtkAsked < k+1 {
+		vtkCond.Wait()
+	}
+	vtkMu.Unlock()
+}
+
+// C34, the server's ticker: the real goroutine ticker() (timestamp.go) runs next to direct
+// requests. The server's timestamp starts at an arbitrary time of day and millisecond; the
+// clock starts at an arbitrary second (ticker's prev); a script of events, each either
+// "a second later the ticker reads the clock" - an arbitrary second of the same day, forwards,
+// backwards or a time skip of hours - or a direct request db19.Timestamp(). After every clock
+// reading the server's timestamp is the later of its old value and the reading (never moves
+// backwards; this is the step VerifC34Ts replays as its event 0), and the values handed out
+// are pairwise different and strictly increasing.
+//
+//symgo:harness prop=C34 tier=quick shards=4 tshards=8 timeout=300 ttimeout=1700 preempt=0 tpreempt=1 replay=off havoc=(github.com/apmckinlay/gsuneido/core.SuDate).MinusMs summary=core.Now=vsumNow summary=(github.com/apmckinlay/gsuneido/core.SuDate).Plus=vsumPlus bounds=scripts_of_3_(thorough_5)_events_from_{the_real_ticker_goroutine_reads_an_arbitrary_clock_second_of_the_same_day,direct_request};server_timestamp_starts_at_any_time_of_day_and_millisecond;the_ticker_runs_between_the_harness's_events_(thorough:_also_1_pre-emption) outside=clock_readings_on_another_day;the_time-skip_log_message_(SuDate.MinusMs,_used_only_for_it,_returns_an_arbitrary_value:_both_log_branches_are_run);SuDate.Plus_by_its_contract_as_in_VerifC34Ts;no_native_replay_(the_clock_and_the_schedule_cannot_be_forced_natively)
+func VerifC34Ticker() {
+	nev := 3
+	if rt.Thorough() {
+		nev = 5
+	}
+	day := vtsDays[0][0]
+	ms := uint32(rt.Choice("ms0", 1000))
+	timestamp = core.TsVerifMkDate(day, vtsTime("t0")|ms)
+	vtkCond.L = &vtkMu
+	vtkGrant, vtkAsked, vtkTaken = 0, 0, 0
+	go ticker()
+	vtkTick(core.TsVerifMkDate(day, vtsTime("clk"))) // prev := Now().WithoutMs()
+	rt.Reach("ticker-started")
+	var all []vts
+	for i := 0; i < nev; i++ {
+		nm := vname34("e", i)
+		if rt.Pick(nm, 2) == 0 {
+			if i == nev-1 && !rt.Thorough() {
+				return // covered by the shorter script
+			}
+			before := vtsOf(timestamp)
+			// the reading has milliseconds: ticker must strip them (WithoutMs)
+			cms := uint32(rt.Choice(nm+"_clkms", 1000))
+			ctime := vtsTime(nm + "_clk")
+			vtkTick(core.TsVerifMkDate(day, ctime|cms))
+			after := vtsOf(timestamp)
+			t := vts{date: day, time: ctime}
+			rt.Assert("ticker/timestamp-is-later-of-old-and-clock", rt.Or(
+				rt.And(vtsLess(before, t), vtsSame(after, t)),
+				rt.And(!vtsLess(before, t), vtsSame(after, before))))
+		} else {
+			all = append(all, vtsOf(Timestamp()))
+		}
+	}
+	rt.Reach("script-done")
+	increasing := true
+	for i := 1; i < len(all); i++ {
+		increasing = rt.And(increasing, vtsLess(all[i-1], all[i]))
+	}
+	rt.Assert("ticker/handed-out-values-increase", increasing)
+}
